@@ -109,3 +109,73 @@ Theorem C02_on_map_cm_monotone :
   forall l, sorted l -> Forall (on_map mk) l -> cm_monotone l = true.
 Proof. exact on_map_cm_monotone. Qed.
 Print Assumptions C02_on_map_cm_monotone.
+
+(* ---- _prepare_coords: the sentinel on EVERY chromosome; whole runs; histories of runs -------- *)
+From HV Require Import C02_Coords C02_SeqCheck.
+
+(* what _prepare_coords hands to _simulate: per requested chromosome a non-empty marker list that is
+   a contiguous piece of that chromosome's map file (the whole file without --region) whose last
+   marker's bp position is replaced by the sentinel; as many lists as chromosomes *)
+Theorem C02_prepare_coords_spec : forall maps chroms rg cs,
+  prepare_coords maps chroms rg = Ok cs ->
+  cs <> [] /\ Forall (piece_of maps chroms) cs /\
+  (rg = None -> length cs = length chroms) /\
+  (rg <> None -> length cs = 1%nat) /\
+  (rg = None -> cs = map (fun f : mapfile => seal (snd f)) (filter (wanted chroms) maps)).
+Proof. exact prepare_coords_spec. Qed.
+Print Assumptions C02_prepare_coords_spec.
+
+(* the end coordinate of every chromosome - first, middle or last - is the sentinel *)
+Theorem C02_prepare_coords_ends : forall maps chroms rg cs,
+  prepare_coords maps chroms rg = Ok cs ->
+  forall i e, nth_error (ends_of cs) i = Some e -> fst e = MAXC.
+Proof. exact prepare_coords_ends. Qed.
+Print Assumptions C02_prepare_coords_ends.
+
+Theorem C02_seal_spec : forall l, l <> [] ->
+  exists pre m, l = pre ++ [m] /\ seal l = pre ++ [(MAXC, snd m)].
+Proof. exact seal_spec. Qed.
+Print Assumptions C02_seal_spec.
+
+(* the whole run, without any hypothesis on the end coordinates *)
+Theorem C02_run_tiles : forall maps r cs,
+  prepare_coords maps (r_chroms r) (r_region r) = Ok cs ->
+  (r_region r = None \/ length (r_chroms r) = 1%nat) ->
+  incr (r_chroms r) -> (forall c, In c (r_chroms r) -> 0 <= c) ->
+  gens_ok (r_chroms r) 0 (r_gens r) ->
+  exists g, sim_generations (r_chroms r) (ends_of cs) [] (r_gens r) = Ok g /\ gen_tiles (r_chroms r) g.
+Proof. exact run_tiles. Qed.
+Print Assumptions C02_run_tiles.
+
+(* hypotheses satisfiable: three map files, the middle chromosome's map ends far below the others;
+   all three ends are the sentinel; a region ending inside chromosome 2 *)
+Example C02_prepare_coords_example :
+  let maps := [(1, [(100, 0); (5000, 1); (90000, 2)]); (2, [(10, 0); (400, 1)]); (23, [(7, 0); (800, 3); (9000, 4)])] in
+  prepare_coords maps [1; 2; 23] None
+    = Ok [[(100, 0); (5000, 1); (MAXC, 2)]; [(10, 0); (MAXC, 1)]; [(7, 0); (800, 3); (MAXC, 4)]]
+  /\ prepare_coords maps [23] (Some (5, 700)) = Ok [[(7, 0); (MAXC, 3)]]
+  /\ prepare_coords maps [23] (Some (8, 20000)) = Ok [[(800, 3); (MAXC, 4)]]
+  /\ prepare_coords maps [1; 3] None = Err E_Exception.
+Proof. vm_compute. repeat split; reflexivity. Qed.
+Print Assumptions C02_prepare_coords_example.
+
+(* a run of a history of runs is the run alone: the model of a run takes that run's inputs only *)
+Theorem C02_run_independent_of_history : forall maps pre r post,
+  nth_error (run_seq maps (pre ++ r :: post)) (length pre) = Some (model_run maps r)
+  /\ run_seq maps [r] = [model_run maps r].
+Proof. intros. split; [apply run_seq_nth|apply run_seq_alone]. Qed.
+Print Assumptions C02_run_independent_of_history.
+
+(* the history checker: every run satisfies the file-level property and equals the run alone *)
+Theorem C02_holds_seq_sound : forall k, holds_seq k = true ->
+  forall r, In r (s_runs k) ->
+    holds_bp (bcase_of r) = true /\
+    (sr_alone r = Err E_Unobserved \/ sr_obs r = Err E_Unobserved \/ sr_obs r = sr_alone r).
+Proof. exact holds_seq_sound. Qed.
+Print Assumptions C02_holds_seq_sound.
+
+(* the file-level checker demands the sentinel as an end on every requested chromosome *)
+Theorem C02_tilesb_every_chrom_sentinel : forall chs l, tilesb chs l = true ->
+  forall c, In c chs -> exists s, In s l /\ chrom s = c /\ endc s = MAXC.
+Proof. exact tilesb_every_chrom_sentinel. Qed.
+Print Assumptions C02_tilesb_every_chrom_sentinel.
